@@ -510,7 +510,28 @@ class Fn:
         return out
 
     # ---- edge labels
-    def cond_of(self, operand, depth=10):
+    def reaching_defs(self, local, at):
+        """The whole-local definitions that can reach the end of block `at` (a later definition on the way kills an earlier
+        one).  Copies of a block made by jump threading define the same local in several places; only one reaches a test."""
+        ds = self.whole_defs(local)
+        if len(ds) <= 1 or at is None:
+            return ds
+        blocks = {d[1] for d in ds}
+        here = [d for d in ds if d[1] == at]
+        if here:
+            return here[-1:]
+        out = []
+        for d in ds:
+            starts = [d[2]["t"]] if d[0] == "call" and d[2].get("t") is not None else list(self.succ[d[1]])
+            if d[0] == "call" and at == d[2].get("t"):
+                out.append(d)
+                continue
+            other = blocks - ({d[1]} if d[0] != "call" else set())
+            if any(x == at or (x not in other and self.path(x, [at], avoid_blocks=other) is not None) for x in starts):
+                out.append(d)
+        return out
+
+    def cond_of(self, operand, depth=10, at=None):
         p = op_place(operand)
         if p is None:
             k = operand.get("k", {})
@@ -524,9 +545,13 @@ class Fn:
             ds = self.whole_defs(l)
             if not ds and 1 <= l <= self.argc:
                 return Cond("arg", neg=neg, local=l, name=self.local_name(l))
+            if len(ds) > 1 and at is not None:
+                ds = self.reaching_defs(l, at)
             if len(ds) != 1:
                 return Cond("multi" if ds else "unknown", neg=neg, local=l, defs=ds)
             d = ds[0]
+            if at is not None:
+                at = d[1]    # continue from where this definition sits
             if d[0] == "call":
                 return Cond("call", neg=neg, site=CallSite(self, d[1], d[2]))
             if d[0] != "stmt":
@@ -589,7 +614,7 @@ class Fn:
                     out.append((b, tb, Label("variant", place=discr["p"], adt=discr.get("adt"), variants=per.get(tb, set()), sw=b)))
                 continue
             if t.get("oty") == "bool":
-                cond = self.cond_of(o)
+                cond = self.cond_of(o, at=b)
                 # `[0: F, else: T]`
                 fb = None
                 for v, tb in t["ts"]:
